@@ -1,6 +1,7 @@
 package props
 
 import (
+	"github.com/freeconf/yang/meta"
 	"fmt"
 	"sort"
 	"strings"
@@ -612,8 +613,9 @@ func c06Gen(lexical bool) func(t *rapid.T) c06Case {
 			}
 		}
 		nrev := rapid.IntRange(0, 3).Draw(t, "nrev")
+		years := rapid.Permutation([]int{18, 19, 20}).Draw(t, "revyears") // revisions are kept as written, whatever their dates
 		for i := 0; i < nrev; i++ {
-			rev := fmt.Sprintf("20%02d-0%d-1%d", 20-i, i+1, i)
+			rev := fmt.Sprintf("20%02d-0%d-1%d", years[i], i+1, i)
 			rp := "/Revisions[" + rev + "]"
 			if g.maybe("revbody?") {
 				g.block("revision", rev, func() { g.descRef(rp) })
@@ -756,6 +758,44 @@ func c06Run(c c06Case, o *hx.Obs) {
 				o.Failf("fidelity|extension|duplicated", "%s: an extension instance appears that was not written there\n%s", base, c.Text)
 				return
 			}
+		}
+	}
+	// the same text with CR LF line ends gives the same schema whichever way it reaches the parser: as a string, by
+	// name through an opener, and as an imported module (whose dump is taken through the importing module)
+	crlf := strings.ReplaceAll(c.Text, "\n", "\r\n")
+	flatOf := func(load func() (*meta.Module, error)) (map[string]string, error) {
+		var out map[string]string
+		var err error
+		if o.Guard("LoadModule(CR LF)", func() {
+			m, e := load()
+			if e != nil {
+				err = e
+				return
+			}
+			d, _ := ydump.Module(m)
+			out = ydump.Flatten(d)
+		}) {
+			return nil, fmt.Errorf("panic")
+		}
+		return out, err
+	}
+	files := map[string]string{"fm.yang": crlf}
+	viaString, e1 := flatOf(func() (*meta.Module, error) { return parser.LoadModuleFromString(nil, crlf) })
+	viaOpener, e2 := flatOf(func() (*meta.Module, error) { return parser.LoadModule(memOpener(files), "fm") })
+	if (e1 == nil) != (e2 == nil) {
+		o.Failf("fidelity|module|load-path|rejected", "with CR LF line ends LoadModuleFromString says %v, LoadModule through an opener says %v\n%q", e1, e2, crlf)
+		return
+	}
+	if e1 == nil {
+		for k, v := range viaString {
+			if viaOpener[k] != v {
+				o.Failf("fidelity|module|load-path", "with CR LF line ends %s is %q when the text is given as a string and %q when it is loaded by name through an opener", k, v, viaOpener[k])
+				return
+			}
+		}
+		if len(viaOpener) != len(viaString) {
+			o.Failf("fidelity|module|load-path", "with CR LF line ends the two ways of loading give %d and %d dump entries", len(viaString), len(viaOpener))
+			return
 		}
 	}
 	// loading the same text again yields an identical schema
